@@ -39,5 +39,15 @@ func Registry() []*Spec {
 		Covers: []string{"changed", "nothing-selected", "error"}, UnitDepth: 6,
 		AllowUnsupported: []string{"formatted (fmt) string", "(reflect.Value)."},
 		Note: "Set/SetOne/Del/DelOne/Remove/RemoveOne/Modify/ModifyOne vs reference mutations (vref.SetAll/RemoveAll) applied at the locations of the reference selector; frame condition = whole-tree equality with the reference result; overlapping selections (descent) skipped; Set creating new members not asserted; error => data unchanged"})
+	// ---- C12: filter scripts are total and typed
+	add(Spec{Property: "C12", Name: "VerifC12_Ops", Pkg: "jp",
+		Quick: map[string]int{}, Thorough: map[string]int{},
+		Covers: []string{"true", "false"}, UnitDepth: 3,
+		AllowUnsupported: []string{"(reflect.Value)."},
+		Note: "operator x left kind x right kind (nil,bool,int64,float64,string<=2 bytes,array,map,missing; right operand as sub-path or constant), symbolic operand values; == != < > <= >= && || ! exists has against the property's typed semantics, + - * / for totality (ints only), == / != complement, Script.Match = filter membership"})
+	add(Spec{Property: "C12", Name: "VerifC12_Multi", Pkg: "jp",
+		Quick: map[string]int{}, Thorough: map[string]int{},
+		Covers: []string{"true", "false"}, UnitDepth: 3,
+		Note: "multi-valued sub-paths on both sides (@.a[*] op @.b[*], 1..3 symbolic int64 each): true iff some combination satisfies the operator"})
 	return r
 }
